@@ -37,6 +37,15 @@ uint32_t mtbl_crc32c(const uint8_t *buf, size_t len)
 	for (size_t s = 0; s <= NB; s++)
 		if (buf == R_file + R_payload_off[s] && len == R_payload_len[s]) {
 			crc_seen[s]++;
+#ifdef DAMAGE_BLOCK
+			/* C12: this block's stored bytes (or its checksum field) were altered in a way
+			 * CRC-32C detects: the recomputed value differs from the stored one */
+			if (s == DAMAGE_BLOCK) {
+				uint32_t d = vn_u32();
+				V_ASSUME(d != 0);
+				return R_crc[s] ^ d;
+			}
+#endif
 			return R_crc[s];
 		}
 	crc_other++;
@@ -123,6 +132,10 @@ static struct mtbl_reader *open_reader(void)
 	mtbl_reader_options_set_madvise_random(ro, vn_bool());
 	struct mtbl_reader *r = mtbl_reader_init_fd(5, ro);
 	mtbl_reader_options_destroy(&ro);
+#if defined(DAMAGE_BLOCK) && VERIFY
+	if (DAMAGE_BLOCK == NB)
+		V_ASSERT(0, "C12: reader opened (with verify_checksums) although the index block's checksum does not match");
+#endif
 	V_ASSERT(r != NULL, "C11: a well-formed file does not open");
 	return r;
 }
@@ -175,6 +188,9 @@ static void do_next(struct mtbl_iter *it)
 				if ((size_t)want >= R_blk_first[j])
 					b = j;
 			V_ASSERT(crc_seen[b] >= 1, "C12: entry returned from a block whose checksum was never compared");
+#ifdef DAMAGE_BLOCK
+			V_ASSERT(b != DAMAGE_BLOCK, "C12: entry decoded from a block whose checksum does not match");
+#endif
 		}
 		last_k = k; last_kl = kl; last_v = v; last_vl = vl; last_idx = want;
 	}
@@ -236,7 +252,11 @@ static struct mtbl_iter *open_iter(struct mtbl_reader *r)
 /* history of next / seek calls given by OPS */
 void h_history(void)
 {
+#ifdef DAMAGE_BLOCK
+	verif_stop_is_violation = 0;	/* C12: "the process stops instead" */
+#else
 	verif_stop_is_violation = 1;
+#endif
 	struct mtbl_reader *r = open_reader();
 	struct mtbl_iter *it = open_iter(r);
 	struct mtbl_iter *other = NULL;
@@ -296,7 +316,11 @@ void h_history(void)
 /* full drain + sticky failure (C01 reader half, C02 lookups, C11) */
 void h_drain(void)
 {
+#ifdef DAMAGE_BLOCK
+	verif_stop_is_violation = 0;
+#else
 	verif_stop_is_violation = 1;
+#endif
 	struct mtbl_reader *r = open_reader();
 	struct mtbl_iter *it = open_iter(r);
 	for (size_t i = 0; i < N + 2; i++)
